@@ -159,6 +159,50 @@ Proof.
     repeat split; auto. intros; congruence.
 Qed.
 
+(* ---- a handler that reports Event.Err makes Statement.Pipeline / Allocate fail ---- *)
+Lemma ssn_update_status_id s p st :
+  t_id (snd (ssn_update_status s p st)) = t_id p /\ herr (snd (fst (ssn_update_status s p st))) = herr s.
+Proof.
+  unfold ssn_update_status. destruct (jobs s !! t_job p); [|auto].
+  unfold job_update. simpl. auto.
+Qed.
+
+Lemma node_add_id n t n' t' : node_add eps n t = inl (n', t') -> t_id t' = t_id t.
+Proof.
+  unfold node_add. repeat case_match; intros H; try discriminate; injection H as <- <-; reflexivity.
+Qed.
+
+Lemma place_with_herr s sid k p nid :
+  t_id p ∈ herr s -> snd (place_with eps s sid k p nid) = RErr.
+Proof.
+  intros Hin. unfold place_with.
+  set (st := match k with KAllocate => Allocated | _ => Pipelined end).
+  destruct (ssn_update_status_id s p st) as [Hid Hh].
+  destruct (ssn_update_status s p st) as [[f s1] p1]. simpl in Hid, Hh.
+  set (p2 := set_node p1 (Some nid)). set (s2 := put_task s1 p2).
+  assert (H3 : forall x, x = match nodes s2 !! nid with
+             | Some n => match node_add eps n p2 with
+                         | inl (n', p') => (put_task (upd_nodes s2 (<[nid:=n']> (nodes s2))) p', p', true)
+                         | inr _ => (s2, p2, false) end
+             | None => (s2, p2, false) end ->
+             herr (fst (fst x)) = herr s /\ t_id (snd (fst x)) = t_id p).
+  { intros x ->. destruct (nodes s2 !! nid); [|simpl; split; [exact Hh|exact Hid]].
+    destruct (node_add eps n p2) as [[n' p']|] eqn:Hn; simpl; [|split; [exact Hh|exact Hid]].
+    split; [exact Hh|]. rewrite (node_add_id _ _ _ _ Hn). exact Hid. }
+  specialize (H3 _ eq_refl).
+  destruct (match nodes s2 !! nid with
+             | Some n => match node_add eps n p2 with
+                         | inl (n', p') => (put_task (upd_nodes s2 (<[nid:=n']> (nodes s2))) p', p', true)
+                         | inr _ => (s2, p2, false) end
+             | None => (s2, p2, false) end) as [[s3 p3] nodeok]. simpl in H3. destruct H3 as [Hh3 Hid3].
+  unfold h_alloc. rewrite Hid3, Hh3. rewrite bool_decide_eq_true_2 by exact Hin.
+  rewrite andb_false_r. reflexivity.
+Qed.
+
+Lemma stmt_pipeline_herr s sid tid nid p :
+  heap s !! tid = Some p -> t_id p ∈ herr s -> snd (stmt_pipeline eps s sid tid nid) = RErr.
+Proof. intros Hp Hin. unfold stmt_pipeline, with_task. rewrite Hp. apply place_with_herr, Hin. Qed.
+
 Lemma stmt_pipeline_spec s sid tid nid s' r :
   stmt_pipeline eps s sid tid nid = (s', r) ->
   evicts s' = evicts s /\ refuse_evict s' = refuse_evict s /\ (heap_ok s -> heap_ok s') /\
